@@ -2,6 +2,7 @@ package nscore
 
 import (
 	"context"
+	"errors"
 	"os"
 	"reflect"
 
@@ -17,6 +18,9 @@ var _package_ = reflect.TypeOf(Here{}).PkgPath()
 func Load(env EnvType) error {
 	core.Load(env)
 	env.Set(Symbol{Val: "eval"}, Func{Fn: func(ctx context.Context, a []MalType) (MalType, error) {
+		if len(a) != 1 {
+			return nil, errors.New("eval requires one argument")
+		}
 		return lisp.EVAL(ctx, a[0], env)
 	}})
 
@@ -29,6 +33,9 @@ func Load(env EnvType) error {
 func LoadInput(env EnvType) error {
 	core.LoadInput(env)
 	env.Set(Symbol{Val: "eval"}, Func{Fn: func(ctx context.Context, a []MalType) (MalType, error) {
+		if len(a) != 1 {
+			return nil, errors.New("eval requires one argument")
+		}
 		return lisp.EVAL(ctx, a[0], env)
 	}})
 
